@@ -149,6 +149,14 @@ class KwOnly(Base):
         rec(self, **kwargs)
 
 
+class BadDefault(Base):
+    """default does not match its annotation: selecting this class fails while its defaults are added"""
+
+    def __init__(self, lr: int = 0.5, shape: Tuple[int, int] = (3, 3, 3)):  # type: ignore[assignment]
+        self.lr = lr
+        rec(self, lr=lr)
+
+
 def make_base(a: int = 9) -> Base:
     return SubA(a=a, b="made")
 
